@@ -135,6 +135,7 @@ pub fn run_d(seed: u64, ntraces: usize, only: Option<u64>) {
         let mut chains: Vec<(Vec<u8>, Vec<u8>)> = vec![(b"ethereum".to_vec(), b"0xITSeth".to_vec()), (b"avalanche".to_vec(), b"hub".to_vec()), (b"polygon".to_vec(), b"0xITSpoly".to_vec())];
         if hub_set { chains.push((b"axelar".to_vec(), b"axelar1hub".to_vec())); }
         chains.push((b"axelarnet".to_vec(), b"0xITSnet".to_vec()));       // a directly trusted chain whose name has the hub's name as a prefix
+        chains.push((b"Fuji-C".to_vec(), b"hub".to_vec()));               // a hub-routed chain whose name has upper-case letters: it is named in the hub wrapper exactly as given
         chains.push((b"twin".to_vec(), b"axelar1hub".to_vec()));          // a directly trusted chain whose peer address string equals the hub's: it still is not the hub chain
         // the service's own chain name: mixed case in every fourth trace (it is hashed into every token id exactly as given)
         let own_chain: Vec<u8> = if t % 4 == 3 { b"MultiversX-D1".to_vec() } else { b"multiversx".to_vec() };
@@ -283,7 +284,7 @@ pub fn run_d(seed: u64, ntraces: usize, only: Option<u64>) {
                     for sh in [9u64, 8, 0, 1, 2] { for ch in 0..5u64 { script.push(3000 + sh * 10 + ch); } }
                     for sh in [9u64, 8, 1] { for ch in 0..2u64 { script.push(3500 + sh * 10 + ch); } }
                     script.extend([3095u64, 3595, 3085, 3585, 3596, 3290, 3291]);
-                    script.extend([58u64, 59, 60, 61]);      // a custom token linked to: the hub chain itself (refused), a hub-routed chain, a direct chain   // empty destination address (transfer / call), call data in the metadata
+                    script.extend([82u64, 58, 59, 60, 61]);      // a custom token linked to: the hub chain itself (refused), a hub-routed chain, a direct chain   // empty destination address (transfer / call), call data in the metadata
                     script.extend([51u64, 3080, 3580, 52, 3081, 3581]);
                     script.extend([71u64, 3082, 3582, 59]);      // the hub chain registered as hub-routed: still refused as a destination (transfer, call, linkToken)      // ethereum removed -> no transfer to it; then the hub removed -> none to a hub-routed chain
                 }
@@ -373,6 +374,12 @@ pub fn run_d(seed: u64, ntraces: usize, only: Option<u64>) {
                 g.its_tx("setTrusted", &ow, "setTrustedAddress", vec![b"axelar".to_vec(), b"hub".to_vec()], 0, &[], json!({"chain": hx(b"axelar"), "a": hx(b"hub")})); continue; }
             if a == 76 { // the account that accepted the service's operatorship hands it back to the proposer
                 if let Some((from, to)) = g.proposed.clone() { let (ok, _, _) = g.its_tx("transferOp", &to, "transferOperatorship", vec![from.to_vec()], 0, &[], json!({"a": hx(from.as_bytes())})); if ok { g.operator = from; } }
+                continue; }
+            if a == 82 { // an outbound transfer to the hub-routed chain with upper-case letters in its name (the wrapper's destination chain is compared byte for byte)
+                if let Some(tk) = g.toks.first() { let (tid, ttok) = (tk.id.clone(), tk.token.clone().unwrap_or(tok.clone())); let u = g.users[0].clone();
+                    let e = vec![(ttok.clone(), 0u64, bn(5))];
+                    g.its_tx("transfer", &u, "interchainTransfer", vec![tid.clone(), b"Fuji-C".to_vec(), b"0xdestination".to_vec(), vec![], vec![]], 0, &e,
+                        json!({"token_id": hx(&tid), "dchain": hx(b"Fuji-C"), "daddr": hx(b"0xdestination"), "metadata": "", "gas": "0"})); }
                 continue; }
             if a == 81 { // the plain endpoint: deployRemoteInterchainToken(salt, ethereum) for the newest native token, by its deployer, with gas
                 if let Some(tk) = g.toks.iter().rev().find(|t| t.kind == "native") {
@@ -465,7 +472,7 @@ pub fn run_d(seed: u64, ntraces: usize, only: Option<u64>) {
                         5 if is_egld => (gasv, vec![]),
                         _ => if is_egld { (amt + gasv, vec![]) } else { (0, vec![(ttok.clone(), 0, bn(amt + gasv))]) },
                     };
-                    let dchain = if let Some((_, ch)) = fshape { [&b"ethereum"[..], b"avalanche", b"axelar", b"unknown", b"axelarnet"][ch as usize].to_vec() } else { r.pick(&[&b"ethereum"[..], b"avalanche", b"polygon", b"axelar", b"unknown", b"ethereum", b"axelarnet"]).to_vec() };
+                    let dchain = if let Some((_, ch)) = fshape { [&b"ethereum"[..], b"avalanche", b"axelar", b"unknown", b"axelarnet"][ch as usize].to_vec() } else { r.pick(&[&b"ethereum"[..], b"avalanche", b"polygon", b"axelar", b"unknown", b"ethereum", b"axelarnet", b"Fuji-C"]).to_vec() };
                     // destination addresses and data also longer than one ABI word and not word aligned (textual addresses of other chains)
                     let daddr = if f_empty_dest || (fshape.is_none() && r.chance(1, 10)) { vec![] } else { match r.below(6) { 0 => r.bytes(40), 1 => r.bytes(33), 2 => r.bytes(64), _ => b"0xdestination".to_vec() } };
                     let before_c = g.toks[ti].custody;
